@@ -109,3 +109,76 @@ package dns
 //@   may-panic
 //@   callsite "CanonicalName" pat: arg0 == pattern
 //@   exit gone: !maphas(mux.z, callres("CanonicalName"))
+
+// ---- request skeletons (defaults.go): the message asks what the arguments say, and nothing else changes sections
+//@ func (*Msg).SetQuestion [C14 C12]
+//@   opt no-safety
+//@   requires dns != nil
+//@   ensures q: len(dns.Question) == 1 && same(dns.Question[0].Name, z) && dns.Question[0].Qtype == t && dns.Question[0].Qclass == 1 && dns.RecursionDesired && ret0 == dns
+//@ func (*Msg).SetNotify [C14]
+//@   opt no-safety
+//@   opt dyncalls-pure
+//@   requires dns != nil
+//@   ensures q: len(dns.Question) == 1 && same(dns.Question[0].Name, z) && dns.Question[0].Qtype == 6 && dns.Question[0].Qclass == 1 && dns.Opcode == 4 && dns.Authoritative && ret0 == dns
+//@ func (*Msg).SetAxfr [C15]
+//@   opt no-safety
+//@   requires dns != nil
+//@   ensures q: len(dns.Question) == 1 && same(dns.Question[0].Name, z) && dns.Question[0].Qtype == 252 && dns.Question[0].Qclass == 1 && ret0 == dns
+//@ func (*Msg).SetIxfr [C15]
+//@   opt no-safety
+//@   requires dns != nil
+//@   ensures q: len(dns.Question) == 1 && same(dns.Question[0].Name, z) && dns.Question[0].Qtype == 251 && dns.Question[0].Qclass == 1 && ret0 == dns
+//@   ensures soa: len(dns.Ns) == 1 && isptrtype(dns.Ns[0], SOA) && asptr(dns.Ns[0], SOA).Serial == serial && same(asptr(dns.Ns[0], SOA).Hdr.Name, z) && asptr(dns.Ns[0], SOA).Hdr.Rrtype == 6 && asptr(dns.Ns[0], SOA).Hdr.Class == 1 && same(asptr(dns.Ns[0], SOA).Ns, ns) && same(asptr(dns.Ns[0], SOA).Mbox, mbox)
+//@ func (*Msg).SetTsig [C11]
+//@   opt no-safety
+//@   requires dns != nil
+//@   ensures last: len(dns.Extra) == old(len(dns.Extra)) + 1 && isptrtype(dns.Extra[len(dns.Extra)-1], TSIG) && ret0 == dns
+//@   ensures stub: same(asptr(dns.Extra[len(dns.Extra)-1], TSIG).Hdr.Name, z) && asptr(dns.Extra[len(dns.Extra)-1], TSIG).Hdr.Rrtype == 250 && asptr(dns.Extra[len(dns.Extra)-1], TSIG).Hdr.Class == 255 && asptr(dns.Extra[len(dns.Extra)-1], TSIG).Hdr.Ttl == 0 && same(asptr(dns.Extra[len(dns.Extra)-1], TSIG).Algorithm, algo) && asptr(dns.Extra[len(dns.Extra)-1], TSIG).Fudge == fudge && asptr(dns.Extra[len(dns.Extra)-1], TSIG).OrigId == old(dns.Id)
+//@   ensures time: timesigned >= 0 ==> asptr(dns.Extra[len(dns.Extra)-1], TSIG).TimeSigned == timesigned
+//@   ensures keep: forall k in 0..old(len(dns.Extra)) :: dns.Extra[k] == old(dns.Extra[k])
+//@ func (*Msg).SetEdns0 [C01 C09]
+//@   opt no-safety
+//@   requires dns != nil
+//@   ensures last: len(dns.Extra) == old(len(dns.Extra)) + 1 && isptrtype(dns.Extra[len(dns.Extra)-1], OPT) && ret0 == dns
+//@   ensures opt: asptr(dns.Extra[len(dns.Extra)-1], OPT).Hdr.Rrtype == 41 && asptr(dns.Extra[len(dns.Extra)-1], OPT).Hdr.Class == udpsize && asptr(dns.Extra[len(dns.Extra)-1], OPT).Hdr.Ttl == (do ? 32768 : 0) && len(asptr(dns.Extra[len(dns.Extra)-1], OPT).Hdr.Name) == 1 && asptr(dns.Extra[len(dns.Extra)-1], OPT).Hdr.Name[0] == '.'
+//@   ensures keep: forall k in 0..old(len(dns.Extra)) :: dns.Extra[k] == old(dns.Extra[k])
+
+// the response writer's TSIG state: status is what serveDNS stored for this request, timers-only what the handler set
+//@ func (*response).TsigStatus [C14 C11]
+//@   requires w != nil
+//@   ensures ret0 == w.tsigStatus
+//@   pure
+//@ func (*response).TsigTimersOnly [C14 C11]
+//@   requires w != nil
+//@   ensures w.tsigTimersOnly == b
+//@   modifies H.response.tsigTimersOnly.v
+//@ func (*response).Hijack [C14]
+//@   requires w != nil
+//@   ensures w.hijacked
+//@   modifies H.response.hijacked.v
+
+// the datagram loop: a datagram shorter than a header is reported to the invalid-message callback and never
+// served; every other datagram read without error is handed to serveUDPPacket (goroutine mechanics abstracted)
+//@ func (*Server).serveUDP [C14]
+//@   opt no-safety
+//@   requires srv != nil
+//@   callsite "MsgInvalidFunc" short: len(arg0) < 12 && same(arg0, m)
+//@   assert at "wg.Add(1)" whole: len(m) >= 12 && err == nil
+//@ func (*Server).serveUDPPacket [C14 C12]
+//@   opt no-safety
+//@   requires srv != nil
+//@   callsite "serveDNS" same: arg0 == srv && same(arg1, m) && arg2 == w
+//@   callsite "serveDNS" session: !called("DecorateWriter") ==> w.udp == u && w.udpSession == udpSession && w.pcSession == pcSession && asptr(w.writer, response) == w
+
+// the stream loop: every message read without error is served on this connection's writer, at most MaxTCPQueries
+// (128 by default, unlimited when -1) per connection; reading stops at the first read error, after a Close or a
+// Hijack by the handler; the connection is closed unless hijacked
+//@ func (*Server).serveTCPConn [C14 C12]
+//@   opt no-safety
+//@   requires srv != nil
+//@   callsite "serveDNS" served: arg0 == srv && same(arg1, m) && arg2 == w && err == nil && (q < limit || limit == 0 - 1)
+//@   callsite "ReadTCP" conn: q > 0 ==> !w.closed && !w.hijacked
+//@   loop 1 invariant q > 0 ==> !w.closed && !w.hijacked
+//@   assert after "limit = maxTCPQueries" dflt: limit == 128
+//@   callsite "Close" unlesshijacked: !w.hijacked
+//@   exit closed: w.hijacked || called("Close")
